@@ -35,4 +35,59 @@ CLAIMS['C08'] = {
     'note': COMMON_NOTE + "Rust's `as` cast on integers is modelled (wrap modulo 2^bits), not verified; discriminants are read off the emitted literals.",
     'technique': 'Lean 4 proof (induction over the variant list; modelled integer casts) + differential correspondence + output oracle',
 }
+CLAIMS['C04'] = {
+    'text': ("Theorems: slots – for every accepted vftable block, any number of functions and any index pattern, function k sits in the "
+             "slot the description says (written index, else predecessor+1, else 0), all other slots hold the private thiscall "
+             "placeholder named after their own position, and the table has the declared size; contradiction_rejected – negative or "
+             "too-small indexes and sizes are errors; vftable_item/slot_offset – the generated struct has one pointer-sized field per "
+             "slot and, under the modelled repr(C) rules, slot k is at byte k*ps; wrapper_shape/vfunc_body – the emitted wrapper reads "
+             "the slot named after the function and forwards receiver then arguments in order. Correspondence with pyxis and an "
+             "oracle on the emitted <T>Vftable struct and wrappers on every run. The run-time clause (one call through that slot) is "
+             "covered through the emitted shape, not by a theorem about an execution model."),
+    'note': COMMON_NOTE + "rustc's repr(C) layout is modelled (RustSem), not verified; wrappers are not executed in the quick tier.",
+    'technique': 'Lean 4 proof (loop invariant over the slot table) + differential correspondence + output oracle',
+}
+CLAIMS['C05'] = {
+    'text': ("Theorems: built_shape – an accepted impl function has the declared non-negative address, the declared parameters in order with "
+             "resolved types and the declared return type; the four *_rejected theorems – no address, negative address, unresolvable "
+             "parameter or return type are errors; wrapper_shape – the emitted wrapper transmutes that address to a function pointer "
+             "over receiver pointer (iff declared) + parameters in order and calls it with them in order; all functions of all impl "
+             "blocks of a type are present (impl_functions_all_present, impl_blocks_merged); hex_roundtrip – the printed literal "
+             "denotes the declared number. Correspondence and an oracle on every emitted wrapper on every run. Known finding: "
+             "functions named `_…` are accepted but not emitted."),
+    'note': COMMON_NOTE + "the run-time clause (exactly one call to A) is covered through the emitted shape; quote!/prettyplease are outside the model, the harness re-parses their output.",
+    'technique': 'Lean 4 proof (attribute-loop invariant, list induction) + differential correspondence + output oracle',
+}
+CLAIMS['C06'] = {
+    'text': ("Theorems: accept_implies_prefix – a type with its own block whose first base has a vftable is accepted only if the base's "
+             "slots are a prefix of its own (as whole function values, hence name, receiver, parameter types, return type, convention), "
+             "then it gets no pointer and records the base field; mutation_rejected – any non-prefix is an error; own_pointer / "
+             "pointer_first – otherwise exactly one private `vftable: *const <T>Vftable` region, placed first; inherited – without a block "
+             "the base's table is taken over unchanged; accessor_shape – the emitted accessor reads the own field or delegates to the "
+             "base field. Correspondence plus an oracle on generated hierarchies and on every single-slot mutation on every run."),
+    'note': COMMON_NOTE + "the pointer an executed accessor returns is covered through the emitted shape.",
+    'technique': 'Lean 4 proof (list prefix from the zip comparison; unfolding of vftable::build) + differential correspondence + mutation oracle',
+}
+CLAIMS['C01'] = {
+    'text': ("Theorems, for any number of fields and both pointer widths: placed_at_spec – resolve_regions places every emitted source field at "
+             "the offset the description says (explicit address, else end of the predecessor; vftable pointer at 0); rustc_offsets – "
+             "whenever pyxis's alignment block accepts, the compiler's repr(C) algorithm (modelled in RustSem) adds no padding, so its "
+             "offsets are pyxis's running sums (packed: unconditionally); emitted_fields / nameRegions_types / buildType_layout – the "
+             "emitted struct lists exactly the placed regions in order under repr(C, align(a)) or repr(C, packed); composed in "
+             "field_offsets_exact. Correspondence with pyxis on layout-first generated worlds and an oracle that lays out the "
+             "implementation's emitted structs with the compiler's rules and compares every named field's offset with the description."),
+    'note': COMMON_NOTE + "rustc's repr(C) layout is modelled (Lean RustSem and Python rustlay), validated against the real compiler only in the thorough tier; zero-length array fields are not emitted and are exempt.",
+    'technique': 'Lean 4 proof (placement-loop invariant; no-padding lemma for repr(C)) + differential correspondence + layout oracle',
+}
+CLAIMS['C02'] = {
+    'text': ("Theorems: init_sound/init_complete – the predefined-type table regenerated from the source equals the compiler's primitive "
+             "layouts for the two MSVC targets (void aside); struct_sound – for an accepted type the modelled compiler's size and "
+             "alignment of the emitted struct are the resolved ones, a declared size/align is the compiled one, packed gives 1; "
+             "placed_layouts/embedding_uses_recorded – the layouts used when embedding a type are the ones recorded for it, which are "
+             "what the compiler uses; enum_sound, vftable_sound, size_check_emitted. Correspondence plus an oracle comparing, for every "
+             "emitted item, pyxis's resolved (size, align) with the compiler-rule layout of the emitted text, the size-check literal and the "
+             "declared attributes. Per-item theorems; the registry-wide induction over resolution rounds is not formalised."),
+    'note': COMMON_NOTE + "rustc layout modelled; extern types assumed to have their declared layout; by-value void excluded (pyxis 0 vs c_void 1).",
+    'technique': 'Lean 4 proof (repr(C) size/alignment lemma, lcm bound, table decide) + differential correspondence + layout oracle',
+}
 NOT_CLAIMED = {}
